@@ -14,11 +14,15 @@ structure Case where
   txLock : Nat
   seq : Nat
   sh : Bytes
+  nested : Bool
+  sh2 : Bytes
 
 def parseCase (line : String) : Option Case :=
   match splitWs line with
-  | ["spend", kind, depositor, extra, blind, wpkh, rpkh, lt, _sk, pk, pkh, flavor, txlock, seq, sh, _warm] => do
-    let k ← (if kind = "p2sh" then some Kind.p2sh else if kind = "p2wsh" then some Kind.p2wsh else none)
+  | ["spend", kind, depositor, extra, blind, wpkh, rpkh, lt, _sk, pk, pkh, flavor, txlock, seq, sh, _warm, sh2] => do
+    let k ← (if kind = "p2sh" then some Kind.p2sh
+             else if kind = "p2wsh" || kind = "nested" then some Kind.p2wsh else none)
+    let sh2 ← parseHex sh2
     let depositor ← parseHex depositor
     let extra ← (if extra = "-" then some none else (parseHex extra).map some)
     let blind ← parseHex blind
@@ -31,7 +35,7 @@ def parseCase (line : String) : Option Case :=
     let seq ← seq.toNat?
     let sh ← parseHex sh
     let dep : Deposit := ⟨depositor, extra, blind, wpkh, rpkh, lt⟩
-    some ⟨k, dep, pk, pkh, flavor, txlock, seq, sh⟩
+    some ⟨k, dep, pk, pkh, flavor, txlock, seq, sh, kind = "nested", sh2⟩
   | _ => none
 
 def baseAmount : Int := 10000
@@ -46,7 +50,8 @@ def flavorValid (flavor : String) : Bool :=
 def ctxOf (c : Case) (script : Bytes) : Ctx Dg :=
   let wit := c.kind == Kind.p2wsh
   let signed : Dg := (script, hashTypeOf c.flavor, wit, if wit then baseAmount else 0)
-  { hash160 := fun x => if x == c.pk then c.pkh else if x == script && !wit then c.sh else []
+  { hash160 := fun x => if x == c.pk then c.pkh else if x == script && !wit then c.sh
+      else if c.nested && x == p2wsh c.sh then c.sh2 else []
     sha256 := fun x => if x == script && wit then c.sh else []
     sigEnc := fun _ => if c.flavor = "highs" then some Err.sigHighS else none
     parsePk := fun _ => true
@@ -67,11 +72,15 @@ def model (line : String) : String :=
     | none => "err:script"
     | some script =>
       let cx := ctxOf c script
-      let r := spend cx c.kind script (sigOf c.flavor) c.pk
+      let r := if c.nested then
+          -- P2SH-nested P2WSH: scriptSig = one push of the witness program, witness as for P2WSH
+          verifyInput cx (pushData (p2wsh c.sh)) [sigOf c.flavor, c.pk, script] (p2sh c.sh2)
+        else spend cx c.kind script (sigOf c.flavor) c.pk
+      let lock := if c.nested then p2sh c.sh2 else lockingScript c.kind c.sh
       match r with
       | .error .unsupported => "SKIP"
       | _ =>
-        "script=" ++ showHex script ++ " lock=" ++ showHex (lockingScript c.kind c.sh) ++ " " ++
+        "script=" ++ showHex script ++ " lock=" ++ showHex lock ++ " " ++
           showResult r
 
 /-- the signature is a valid, standard one for this spend (monitor's notion, from the op line) -/
